@@ -7,7 +7,7 @@ from . import gen_common as G
 from .gen_c20 import _interleave, _place_faults
 
 SEAM_OPS = {"ld.serialize", "ld.deserialize", "ld.dump", "ld.load"}
-GROUPS = ["netdesc", "complex", "cirdesc", "roundtrip", "foreign", "inplace", "files", "netfile"]
+GROUPS = ["netdesc", "complex", "cirdesc", "roundtrip", "foreign", "inplace", "files", "netfile", "cycles"]
 
 
 def plan(seed, overrides=None):
@@ -35,9 +35,9 @@ def plan(seed, overrides=None):
         recipes[f"cdesc{i}"] = G.gen_cir_description(rr, degenerate=rr.random() < cfg["degenerate_rate"])
         recipes[f"doc{i}"] = G.gen_document_recipe(rr, python_form=True)
         # a twin that serialises to exactly the same number of bytes (only one digit differs)
-        recipes[f"doc{i}"]["v"]["n"] = 1
+        recipes[f"doc{i}"]["v"]["_rev"] = 1
         twin = copy.deepcopy(recipes[f"doc{i}"])
-        twin["v"]["n"] = 2
+        twin["v"]["_rev"] = 2
         recipes[f"doc{i}t"] = twin
         recipes[f"ndoc{i}"] = G.gen_document_recipe(rr, python_form=False)
         z = G.cx(rr) * rr.choice([1, 10, 0.01])
@@ -108,6 +108,22 @@ def _script(r, client, world, counter):
             if r.random() < 0.4:      # serialise the same object once more: the first call must not have edited it
                 t2 = add("ld.serialize", {"doc": P(f"doc{i}"), "fmt": fmt})
                 add("ld.deserialize", {"text": t2, "fmt": fmt, "expect": P(f"doc{i}")})
+        elif g == "cycles":
+            # a document that was LOADED is written and loaded again, through memory or a file, formats mixed:
+            # what comes back from the library must itself survive the library
+            if r.random() < 0.6:
+                cur = add("ld.deserialize", {"text": {"foreign": P(f"ndoc{i}")}, "fmt": fmt, "expect": P(f"ndoc{i}"), "ascii": r.random() < 0.5})
+            else:
+                cur = add("ld.undictify_all", {"doc": P(f"ndoc{i}")})
+            for _ in range(r.randint(1, 4)):
+                f2 = r.choice(cfg["formats"])
+                if r.random() < 0.6:
+                    t = add("ld.serialize", {"doc": cur, "fmt": f2})
+                    cur = add("ld.deserialize", {"text": t, "fmt": f2})
+                else:
+                    p = r.choice(["cy", "a"]) + "." + f2
+                    add("ld.dump", {"path": p, "doc": cur})
+                    cur = add("ld.load", {"path": p})
         elif g == "foreign":
             add("ld.deserialize", {"text": {"foreign": P(f"ndoc{i}")}, "fmt": fmt, "expect": P(f"ndoc{i}"), "ascii": r.random() < 0.5})
         elif g == "inplace":
